@@ -1,0 +1,17 @@
+// Copyright Suneido Software Corp. All rights reserved.
+// Governed by the MIT license found in the LICENSE file.
+
+//go:build verif
+
+package index
+
+import (
+	btree "github.com/apmckinlay/gsuneido/db19/index/btree"
+	"github.com/apmckinlay/gsuneido/db19/index/ixbuf"
+)
+
+// VerifParts exposes the components of an Overlay
+// to external verification harnesses (build tag verif)
+func (ov *Overlay) VerifParts() (bt *btree.T, layers []*ixbuf.T, mut *ixbuf.T) {
+	return ov.bt, ov.layers, ov.mut
+}
